@@ -177,7 +177,9 @@ def run_case(case, rng):
         same(case, c, ref, "chain:not-law-of-total-probability", **facts)
 
     # ---- condition (Bayes) ------------------------------------------------------------------------
-    like = {e: rng.choice([0, 0, 1, 0.2, 0.5, True, False]) for e in r1}
+    from fractions import Fraction
+    like = {e: rng.choice([0, 0, 1, 0.2, 0.5, True, False, 2, 3, Fraction(1, 3), np.int64(2), np.float64(0.25)])
+            for e in r1}       # a likelihood is a non-negative number of any numeric type
     mass = math.fsum(p * float(like[e]) for e, p in r1.items())
     if mass > 0:
         post = case.call("condition", d1.condition, lambda e: like[e], facts=facts)
